@@ -9,7 +9,10 @@
 (*   Cfg(nt, nk)                       new execution                       *)
 (*   SetValue(t, p, k, v, n)           n = id given to the new context     *)
 (*   SetValues(t, p, m = [[k,v]..], n)                                     *)
-(*   Attach(t, c)   Detach(t, c, ok)   ScopeEnter(t, s, n)  ScopeExit(t,c) *)
+(*   Attach(t, c, tk)                  tk = id given to the new token      *)
+(*   Detach(t, tk, c, ok)              token object tk (created for c)     *)
+(*   TokenDtor(t, tk, c)               the thread destroys token object tk *)
+(*   ScopeEnter(t, s, n)  ScopeExit(t, c)                                  *)
 (*   Drop(t, c)                        the thread drops its handle to c    *)
 (* every event also carries the caller's observations after the call:      *)
 (*   cur, curn  RuntimeContext::GetCurrent(): id of the (curn) LIVE handle(s) *)
@@ -34,7 +37,8 @@ AllFlags == {"shadow", "sibling", "emptymap", "shadowmap", "deep", "reattach", "
              "empty_tok", "ooo", "dup", "dup_ooo", "ooo_deep", "ooo_deep2", "nested_scope", "scope_ooo",
              "scope_restores_span", "scope_exit_destroys", "drop_child_first", "drop_leaf_of_chain", "drop_parent_first",
              "drop_middle", "drop_attached", "unwind_to_small", "regrow", "ooo_after_regrow", "clear_key", "clear_span_key",
-             "clear_key_map", "stale_token_after_reuse"}
+             "clear_key_map", "stale_token_after_reuse", "stale_token_freed_by_pop", "stale_detach", "stale_dtor",
+             "stale_scope_exit", "drop_with_token_alive", "dtor_detaches", "dtor_xthread"}
 Merge(a, fl) == [f \in AllFlags |-> a[f] + IF f \in fl THEN 1 ELSE 0]
 
 Ev == TraceLog[l]
@@ -47,7 +51,7 @@ TCfg == /\ Is("Cfg")
         /\ Ev.nt + 1 <= NT /\ Ev.nk <= NK
         /\ nk' = Ev.nk /\ nexec' = nexec + 1 /\ agg' = Merge(agg, flags.f)
         /\ val' = <<>> /\ origin' = <<>> /\ stack' = [t \in Threads |-> <<>>]
-        /\ toks' = {} /\ scopes' = {} /\ live' = {} /\ phase' = [t \in Threads |-> 0]
+        /\ tok' = <<>> /\ scopes' = {} /\ live' = {} /\ phase' = [t \in Threads |-> 0]
         /\ last' = NoOp /\ flags' = NoFlags /\ hist' = <<>>
 
 \* observations common to every event
@@ -82,14 +86,22 @@ TSetValues == /\ Is("SetValues")
 
 TAttach == /\ Is("Attach")
            /\ Attach(Ev.t, Ev.c)
+           /\ Ev.tk = Len(tok')
            /\ ObsOK(0)
            /\ UNCHANGED <<nk, nexec, agg>>
 
 TDetach == /\ Is("Detach")
-           /\ Detach(Ev.t, Ev.c)
+           /\ Ev.tk \in LiveToks /\ tok[Ev.tk] = Ev.c
+           /\ Detach(Ev.t, Ev.tk)
            /\ (last'.ok = 2 \/ last'.ok = Ev.ok)
            /\ ObsOK(0)
            /\ UNCHANGED <<nk, nexec, agg>>
+
+TTokenDtor == /\ Is("TokenDtor")
+              /\ Ev.tk \in LiveToks /\ tok[Ev.tk] = Ev.c
+              /\ DestroyToken(Ev.t, Ev.tk)
+              /\ ObsOK(0)
+              /\ UNCHANGED <<nk, nexec, agg>>
 
 TScopeEnter == /\ Is("ScopeEnter")
                /\ ScopeEnter(Ev.t, Ev.s)
@@ -107,7 +119,7 @@ TDrop == /\ Is("Drop")
          /\ ObsOK(0)
          /\ UNCHANGED <<nk, nexec, agg>>
 
-TNext == TDrop \/ TCfg \/ TSetValue \/ TSetValues \/ TAttach \/ TDetach \/ TScopeEnter \/ TScopeExit
+TNext == TDrop \/ TCfg \/ TSetValue \/ TSetValues \/ TAttach \/ TDetach \/ TTokenDtor \/ TScopeEnter \/ TScopeExit
 TSpec == TInit /\ [][TNext]_tvars
 
 Progress == TLCSet(1, IF l > TLCGet(1) THEN l ELSE TLCGet(1))
